@@ -331,6 +331,7 @@ func checkC05(c *Ctx) {
 
 		// ---------------------------------------------------------------- G1
 		d.ruleCommitmentCheck(c, G1)
+		d.ruleCommitmentSent(c, G1)
 		// ---------------------------------------------------------------- G2
 		d.ruleCrossCheck(c, G2)
 		// ---------------------------------------------------------------- T1
@@ -508,14 +509,15 @@ func (d *dkgModel) ruleCommitmentCheck(c *Ctx, rule string) {
 			if lk == nil || !isLoadOfField(lk.X, d.fCommitments) || !isRangePart(lk.Index, 1) {
 				continue
 			}
-			// pr[0] = sha256 over the range value
-			s := d.sl.Slice(pr[0])
-			hashed := sliceHas(s, func(v ssa.Value) bool {
-				c2, ok := v.(*ssa.Call)
-				return ok && (isCallTo(&c2.Call, "crypto/sha256", "New") || isCallTo(&c2.Call, "crypto/sha256", "Sum256"))
-			})
-			overVal := sliceHas(s, func(v ssa.Value) bool { return isRangePart(v, 2) })
-			if hashed && overVal {
+			// pr[0] = a proper SHA-256 digest whose input is the range value (the revealed key)
+			ins := sha256Inputs(pr[0], 0)
+			overVal := false
+			for _, iv := range ins {
+				if sliceHas(d.sl.Slice(iv), func(v ssa.Value) bool { return isRangePart(v, 2) }) {
+					overVal = true
+				}
+			}
+			if len(ins) > 0 && overVal {
 				okPair = true
 			}
 		}
@@ -891,4 +893,134 @@ func contextEndedAt(in ssa.Instruction) bool {
 		}
 		return false
 	})
+}
+
+// sha256Inputs: v is a proper SHA-256 digest — sha256.Sum256(x) (possibly re-sliced), or h.Sum(nil) of
+// h := sha256.New() after h.Write(x…) — and returns the values x that were hashed.  nil if v is not a
+// digest of that form: in particular h.Sum(x) with a non-nil argument and nothing written, which only
+// APPENDS the digest of the empty input to x (x stays in the clear).  Own helper functions returning a
+// digest of their parameters are followed.
+func sha256Inputs(v ssa.Value, depth int) []ssa.Value {
+	if depth > 4 {
+		return nil
+	}
+	v = resultOf(v)
+	switch x := v.(type) {
+	case *ssa.Slice:
+		// digest := sha256.Sum256(x); digest[:]
+		if al, ok := x.X.(*ssa.Alloc); ok {
+			sts := storesToCell(al)
+			if len(sts) == 1 {
+				return sha256Inputs(sts[0].Val, depth+1)
+			}
+		}
+		return sha256Inputs(x.X, depth+1)
+	case *ssa.Call:
+		if isCallTo(&x.Call, "crypto/sha256", "Sum256") {
+			return []ssa.Value{x.Call.Args[0]}
+		}
+		if x.Call.IsInvoke() && x.Call.Method.Name() == "Sum" {
+			if !isNilConst(x.Call.Args[0]) {
+				return nil
+			}
+			h := strip(x.Call.Value)
+			if hc, ok := h.(*ssa.Call); !ok || !isCallTo(&hc.Call, "crypto/sha256", "New") {
+				return nil
+			}
+			var ins []ssa.Value
+			if refs := h.Referrers(); refs != nil {
+				for _, r := range *refs {
+					w, ok := r.(*ssa.Call)
+					if ok && w.Call.IsInvoke() && w.Call.Method.Name() == "Write" && w.Call.Value == h && instrDominates(w, x) {
+						ins = append(ins, w.Call.Args[0])
+					}
+				}
+			}
+			// the hash value may have gone through a MakeInterface / local
+			if len(ins) == 0 {
+				for _, in := range instrsOf(x.Parent()) {
+					w, ok := in.(*ssa.Call)
+					if ok && w.Call.IsInvoke() && w.Call.Method.Name() == "Write" && strip(w.Call.Value) == h && instrDominates(w, x) {
+						ins = append(ins, w.Call.Args[0])
+					}
+				}
+			}
+			return ins
+		}
+		// an own helper returning a digest of its parameters
+		g := x.Call.StaticCallee()
+		if g == nil || g.Blocks == nil || !ownPkgPath(pkgPathOf(g)) {
+			return nil
+		}
+		var ret *ssa.Return
+		for _, in := range instrsOf(g) {
+			if r, ok := in.(*ssa.Return); ok {
+				if ret != nil {
+					return nil
+				}
+				ret = r
+			}
+		}
+		if ret == nil || len(ret.Results) != 1 {
+			return nil
+		}
+		noParamLook++
+		inner := sha256Inputs(retResult(ret, 0), depth+1)
+		noParamLook--
+		var out []ssa.Value
+		for _, iv := range inner {
+			noParamLook++
+			s := strip(iv)
+			noParamLook--
+			if p, ok := s.(*ssa.Parameter); ok && p.Parent() == g {
+				if idx := paramIndex(p); idx >= 0 && idx < len(x.Call.Args) {
+					out = append(out, x.Call.Args[idx])
+					continue
+				}
+			}
+			out = append(out, iv)
+		}
+		return out
+	}
+	return nil
+}
+
+// ruleCommitmentSent: what a party broadcasts as its commitment is a proper SHA-256 digest of the very
+// bytes it later reveals (hiding: the commitment must not contain the key in the clear).
+func (d *dkgModel) ruleCommitmentSent(c *Ctx, rule string) {
+	sends := d.sendSites()
+	var reveals []ssa.Value
+	for call, tag := range sends {
+		if tag == d.tagReveal {
+			if ec, ok := strip(call.Common().Args[0]).(*ssa.Call); ok && len(ec.Call.Args) == 2 {
+				reveals = append(reveals, ec.Call.Args[1])
+			}
+		}
+	}
+	n := 0
+	for call, tag := range sends {
+		if tag != d.tagCommit {
+			continue
+		}
+		ec, ok := strip(call.Common().Args[0]).(*ssa.Call)
+		if !ok || len(ec.Call.Args) != 2 {
+			continue
+		}
+		n++
+		ins := sha256Inputs(ec.Call.Args[1], 0)
+		okKey := false
+		for _, iv := range ins {
+			for _, rv := range reveals {
+				if sameValue(iv, rv) || d.sl.sameRoot(iv, rv) || strip(iv) == strip(rv) {
+					okKey = true
+				}
+			}
+		}
+		c.Check(len(ins) > 0 && okKey, rule, FuncName(call.Parent()), "commitment sent is a digest of the key revealed later", d.m.Pos(call.Pos()),
+			"payload = SHA-256 over the bytes sent with the reveal",
+			"the commitment broadcast is not a SHA-256 digest of the key that is revealed later (e.g. hash.Sum(pk) without writing pk only appends the empty digest to pk): the key contribution is disclosed with the commitment, and a participant that commits last can choose its key as a function of the others'")
+	}
+	if n == 0 {
+		c.Bad(rule, d.b.pkg, "commitment broadcast", "-", "no commitment is sent")
+	}
 }
